@@ -269,7 +269,7 @@ func Generate(r *rand.Rand, hosts []string, o Opts) *Generated {
 			act.Published = fmt.Sprintf("2024-06-%02dT%02d:30:00Z", 28-i%28, i%24)
 			e := g.mention(act, c.Host)
 			if g.anomalous(o) {
-				switch r.Intn(9) {
+				switch r.Intn(10) {
 				case 7: // a note embedded without an id that claims an author who has one (on another host or not): a forgery
 					anon := newPost(a.Host)
 					anon.Replies, anon.Parent = nil, nil
@@ -299,6 +299,23 @@ func Generate(r *rand.Rand, hosts []string, o Opts) *Generated {
 					}
 					act.ActKind = "Create"
 					act.Object = &Edge{To: anon, Mode: "anon"}
+				case 9: // a post that only survives as an embedded copy: its home is gone, so nothing can prove to be a reply to it
+					lostPost := newPost(a.Host)
+					lostPost.Creators = []*Edge{URL(a)}
+					lostPost.Parent = nil
+					rc := g.NewColl(a.Host, "replies", true)
+					var entries []*Edge
+					for k, m := 0, 1+r.Intn(3); k < m; k++ {
+						rp := newPost(hosts[r.Intn(nh)])
+						rp.Parent = URL(lostPost) // a plain link to an address that no longer loads
+						entries = append(entries, URL(rp))
+					}
+					rc.AddPage(entries)
+					lostPost.Replies = rc
+					lostPost.Gone = "404"
+					act.ActKind = "Create"
+					act.Object = &Edge{To: lostPost, Mode: "embed", Keep: true}
+					e = URL(act) // the activity is mentioned by address, so its own document embeds the post at depth 1
 				case 8: // a post with an id whose author is embedded without one
 					p2 := newPost(a.Host)
 					ghost := g.NewActor(a.Host)
